@@ -545,6 +545,22 @@ fn random_stream(thorough: bool, rng: &mut Rng, emit: &mut dyn FnMut(String))
 
 fn corpus(emit: &mut dyn FnMut(String))
 {
+	// block comments nested deeper than a small counter could count (255, 256, 257, 1025 levels; the model's cost grows quadratically with the text, which rules out 65536), closed and
+	// one closer short, between two tokens
+	for d in [255usize, 256, 257, 1025]
+	{
+		for missing in [0usize, 1]
+		{
+			let mut v: Vec<u8> = b"a ".to_vec();
+			for _ in 0..d { v.extend_from_slice(b"/*"); }
+			v.extend_from_slice(b" x ");
+			for _ in 0..d - missing { v.extend_from_slice(b"*/"); }
+			v.extend_from_slice(b" b");
+			emit(format!("T {}", hex_bytes(&v)));
+		}
+	}
+	// every byte value behind / in front of a valid text ending in LF, CRLF, nothing
+	for b in 0..=255u8 { for pre in [&b"a 1;\n"[..], b"a 1;\r\n", b"a 1;", b"a 1; //c\r\n"] { let mut v = pre.to_vec(); v.push(b); emit(format!("T {}", hex_bytes(&v))); let mut w = vec![b]; w.extend_from_slice(pre); emit(format!("T {}", hex_bytes(&w))); } }
 	// witnesses of the repaired defects F15 (block comment before a multi-byte last character) and F16 (raw control / DEL in a string)
 	for c in [&b"/* */\xc3\xa9"[..], b"/**/\xe2\x82\xac", b"/* \xf0\x9f\x98\x80", b"/*\xc3\xa9", b"x /* c */ \"\xc3\xa9\"\xc3\xa9",
 		b"\"a\x7f\"", b"\"a\nb\"", b"\"\x01\"", b"\"a\x7f", b".dstr \"a\nb\";", b"\"\\n\x7f\"", b"\"\r\"", b"\"\x00\"",
